@@ -52,7 +52,7 @@ CONSTANTS MaxDepth,      \* TLCGet("level") bound: level N = chains of N-1 const
           InitLen,       \* initial sequences have length 0..InitLen
           UniverseName,  \* "u2" | "u3" | "u3n" | "un" | "uf" | "u4" | "u7" | "u9" | "ux"
           GridName,      \* "small" | "full"
-          Groups         \* subset of {"pos", "range", "iter", "agg", "cat", "focus", "nodes"}
+          Groups         \* subset of {"pos", "range", "iter", "agg", "cat", "focus", "nodes", "coll"}
 
 VARIABLE st
 vars == <<st>>
@@ -145,7 +145,9 @@ VC(op, a, b) ==
          [] op = "le" -> TF(Lt(a, b) \/ Eq(a, b))
          [] op = "ge" -> TF(Lt(b, a) \/ Eq(a, b))
 (* eq as used by index-of / distinct-values: incomparable = not equal, never an error *)
-SameValue(a, b) == Comparable(a, b) /\ Eq(a, b)
+(* xs:untypedAtomic items ("unt", lexical form in s) are compared AS STRINGS by index-of / distinct-values *)
+AsStr(x) == IF x.t = "unt" THEN [x EXCEPT !.t = "str"] ELSE x
+SameValue(a, b) == Comparable(AsStr(a), AsStr(b)) /\ Eq(AsStr(a), AsStr(b))
 
 ---------------------------------------------------------------------------
 (* outcomes *)
@@ -215,6 +217,10 @@ Tok(tok, n) ==
     [] tok = "true()" -> <<Bool(TRUE)>>
     [] tok = "1e0"   -> <<Dbl(1, 1)>>
     [] tok = "1.0"   -> <<Dec(1, 1)>>
+    [] tok = "'NaN'" -> <<Str(<<78, 97, 78>>)>>
+    [] tok = "'A'"   -> <<Str(<<65>>)>>
+    [] tok = "-3"    -> <<IntV(-3)>>
+    [] tok = "10"    -> <<IntV(10)>>
     [] tok = "0.1"   -> <<Dec(1, 10)>>
     [] tok = "0.1e0" -> <<Dbl(1, 10)>>
     [] tok = "0.3e0" -> <<Dbl(3, 10)>>
@@ -233,7 +239,7 @@ KToks     == IF GridName = "full" THEN {"0", "1", "1.5", "2", "3", "len", "len+1
 RangeToks == IF GridName = "full" THEN {"()", "-1", "0", "1", "2", "3"} ELSE {"()", "1", "3"}
 ItemKToks == IF GridName = "full" THEN {"1", "2", "2.5", "1e0", "'a'", "NaN", "0.1", "0.1e0"} ELSE {"1", "2.5"}
 ItemOps   == IF GridName = "full" THEN CmpOps ELSE {"gt", "eq", "le"}
-SearchToks == IF GridName = "full" THEN {"()", "1", "1e0", "2.5", "'a'", "NaN", "true()", "2", "1.0", "0.1", "0.1e0", "0.3e0"} ELSE {"1", "'a'", "NaN"}
+SearchToks == IF GridName = "full" THEN {"()", "1", "1e0", "2.5", "'a'", "NaN", "true()", "2", "1.0", "0.1", "0.1e0", "0.3e0", "'NaN'"} ELSE {"1", "'a'", "NaN"}
 ZeroToks  == {"()", "0.0", "'z'"}
 I9 == IntV(9)
 Sb == Str(<<98>>)
@@ -311,6 +317,23 @@ FnExactlyOne(S) == IF Len(S) # 1 THEN Err("FORG0005") ELSE OK(S)
 
 (* aggregates, F&O 15.4 *)
 AllNum(S) == \A i \in 1..Len(S) : IsNum(S[i])
+(* atomization: an (untyped) node gives the xs:untypedAtomic of its text; document
+   <r><n k="x">5</n><n k="y">NaN</n><n k="z">7</n></r>, ids in document order *)
+Unt(s) == [t |-> "unt", k |-> "fin", q |-> <<0, 1>>, s |-> s, ap |-> FALSE]
+TextOf(d) == CASE d = 2 -> <<53>> [] d = 4 -> <<78, 97, 78>> [] d = 6 -> <<55>>
+               [] d = 3 -> <<120>> [] d = 5 -> <<121>> [] d = 7 -> <<122>> [] d = 1 -> <<53, 78, 97, 78, 55>>
+Atomize(S) == [i \in 1..Len(S) |-> IF S[i].t = "node" THEN Unt(TextOf(S[i].q[1])) ELSE S[i]]
+(* fn:sum / avg / min / max cast xs:untypedAtomic to xs:double (FORG0001 if the cast fails) *)
+UntDouble(s) == CASE s = <<50>> -> <<Item("dbl", "fin", <<2, 1>>, <<>>)>> [] s = <<53>> -> <<Item("dbl", "fin", <<5, 1>>, <<>>)>>
+                  [] s = <<55>> -> <<Item("dbl", "fin", <<7, 1>>, <<>>)>>
+                  [] s = <<78, 97, 78>> -> <<Special("dbl", "nan")>>
+                  [] s = <<73, 78, 70>> -> <<Special("dbl", "pinf")>>
+                  [] OTHER -> <<>>
+AggPrep(S) ==
+  LET A == Atomize(S) IN
+  IF \E i \in 1..Len(A) : A[i].t = "unt" /\ UntDouble(A[i].s) = <<>> THEN Err("FORG0001")
+  ELSE OK([i \in 1..Len(A) |-> IF A[i].t = "unt" THEN UntDouble(A[i].s)[1] ELSE A[i]])
+NoUnt(S) == \A i \in 1..Len(S) : S[i].t \notin {"unt", "node"}
 RECURSIVE FoldAdd(_, _, _)
 FoldAdd(acc, S, i) == IF i > Len(S) THEN acc ELSE FoldAdd(NumAdd(acc, S[i]), S, i + 1)
 FnSum(S, z) ==                      \* z: the $zero argument (a sequence), <<IntV(0)>> by default
@@ -568,6 +591,33 @@ ExQuantFocus(S, q, F, thr) ==
   IN QuantRes(q, [i \in 1..Len(S) |-> c])
 
 ---------------------------------------------------------------------------
+(* a range expression written DIRECTLY as the argument / binding sequence (no parentheses), bounds
+   that differ by 2 and more in both directions and negative bounds: F(a to b) = F of the integers a..b *)
+RangeBounds == {"-3", "-1", "1", "3", "10"}
+RangeFns == {"count", "empty", "exists", "sum", "avg", "max", "min", "reverse", "head", "tail", "subsequence2",
+             "distinct-values", "zero-or-one", "one-or-more", "exactly-one", "for1", "some", "every", "map1"}
+ExRangeFn(F, R) ==
+  CASE F = "count" -> FnCount(R) [] F = "empty" -> FnEmpty(R) [] F = "exists" -> FnExists(R)
+    [] F = "sum" -> FnSum(R, <<IntV(0)>>) [] F = "avg" -> FnAvg(R)
+    [] F = "max" -> FnMinMax(R, TRUE) [] F = "min" -> FnMinMax(R, FALSE)
+    [] F = "reverse" -> FnReverse(R) [] F = "head" -> FnHead(R) [] F = "tail" -> FnTail(R)
+    [] F = "subsequence2" -> Subseq2Filter(R, <<IntV(2)>>)
+    [] F = "distinct-values" -> FnDistinct(R)
+    [] F = "zero-or-one" -> FnZeroOrOne(R) [] F = "one-or-more" -> FnOneOrMore(R) [] F = "exactly-one" -> FnExactlyOne(R)
+    [] F = "for1" -> ExFor(R, "1")                        \* for $x in a to b return 1
+    [] F = "map1" -> ExFor(R, "1")                        \* (a to b) ! 1  -- parenthesised control
+    [] F = "some" -> QuantRes("some", [i \in 1..Len(R) |-> TF(NumLt(IntV(0), R[i]))])
+    [] F = "every" -> QuantRes("every", [i \in 1..Len(R) |-> TF(NumLt(IntV(0), R[i]))])
+
+(* the STATIC DEFAULT COLLATION is part of the evaluation: index-of / distinct-values without a collation
+   argument use it.  coll "cp" = Unicode codepoint, "ci" = html-ascii-case-insensitive (A-Z folded to a-z). *)
+FoldS(s) == [i \in 1..Len(s) |-> IF s[i] \in 65..90 THEN s[i] + 32 ELSE s[i]]
+CollKey(coll, x) == IF coll = "ci" /\ x.t = "str" THEN [x EXCEPT !.s = FoldS(x.s)] ELSE x
+CollKeys(coll, S) == [i \in 1..Len(S) |-> CollKey(coll, S[i])]
+FnIndexOfC(S, v, coll) == FnIndexOf(CollKeys(coll, S), CollKeys(coll, v))
+FnDistinctC(S, coll) ==
+  LET K == CollKeys(coll, S) IN OK(Pick(S, [i \in 1..Len(S) |-> \A j \in 1..(i - 1) : ~DistinctEq(K[j], K[i])]))
+
 (* group "nodes": sequences of NODES.  The simple map operator and `for` concatenate in the order of the
    left operand and keep duplicates; only the path operator returns document order without duplicates. *)
 IsNode(x)   == x.t = "node"
@@ -603,6 +653,10 @@ U3 == {IntV(1), Sa, DblNaN}
 U3n == {Node(2), Node(4), Sa}
 Un  == {Node(2), Node(4), Node(5)}              \* two sibling elements and an attribute: all-node sequences
 (* values that are FALSY in the host language: 0, 0.0, '', false() (and 1, -1 so that sum/avg/min/max reach 0) *)
+(* untyped data among the numeric types: xs:untypedAtomic '2', 'NaN', 'x' and the element whose text is NaN *)
+Uu  == {IntV(1), Dec(5, 2), Dbl(1, 1), Flt(3, 2), Unt(<<50>>), Unt(<<78, 97, 78>>), Unt(<<120>>), Node(4)}
+(* strings that differ in case only *)
+Uc  == {Sa, Str(<<65>>), Sb, IntV(1)}
 Uf  == {IntV(0), Dec(0, 1), Str(<<>>), Bool(FALSE), IntV(1), IntV(-1)}
 U4 == {IntV(1), IntV(2), Dec(5, 2), Sa}
 U7 == {IntV(1), IntV(2), IntV(3), Dec(5, 2), Dbl(1, 1), DblNaN, Sa}
@@ -615,10 +669,12 @@ U9 == U7 \cup {Flt(3, 2), Bool(TRUE)}
 UX == {IntV(1), Dec(1, 1), Flt(1, 1), Dbl(1, 1), Dec(1, 10), Dbl(1, 10), Dec(3, 10), Dbl(3, 10)}
 Universe == CASE UniverseName = "u2" -> U2 [] UniverseName = "u3" -> U3 [] UniverseName = "u3n" -> U3n [] UniverseName = "un" -> Un
               [] UniverseName = "uf" -> Uf [] UniverseName = "u4" -> U4
+              [] UniverseName = "uu" -> Uu [] UniverseName = "uc" -> Uc
               [] UniverseName = "u7" -> U7 [] UniverseName = "u9" -> U9 [] UniverseName = "ux" -> UX
 
 (* atomization of nodes is not modelled: node universes only with the type-agnostic groups *)
 ASSUME UniverseName \in {"u3n", "un"} => Groups \subseteq {"pos", "range", "cat", "nodes"}
+ASSUME UniverseName = "uu" => Groups \subseteq {"agg", "pos", "range", "cat"}
 
 (* a state can be used as an operand: a sequence, not too long, exact, small numbers *)
 Usable == /\ st.k = "seq"
@@ -665,20 +721,24 @@ PredSelf          == On("iter") /\ st' = ExPredSelf(S)
 Count             == On("agg") /\ st' = FnCount(S)
 Empty             == On("agg") /\ st' = FnEmpty(S)
 Exists            == On("agg") /\ st' = FnExists(S)
-IndexOf(v)        == On("agg") /\ st' = FnIndexOf(S, Tok(v, N))
-DistinctValues    == On("agg") /\ st' = FnDistinct(S)
+IndexOf(v)        == On("agg") /\ st' = FnIndexOf(Atomize(S), Tok(v, N))
+DistinctValues    == On("agg") /\ st' = FnDistinct(Atomize(S))
 ZeroOrOne         == On("agg") /\ st' = FnZeroOrOne(S)
 OneOrMore         == On("agg") /\ st' = FnOneOrMore(S)
 ExactlyOne        == On("agg") /\ st' = FnExactlyOne(S)
-Sum               == On("agg") /\ st' = FnSum(S, <<IntV(0)>>)
-SumZero(z)        == On("agg") /\ st' = FnSum(S, Tok(z, N))
-Avg               == On("agg") /\ st' = FnAvg(S)
-Min               == On("agg") /\ st' = FnMinMax(S, FALSE)
-Max               == On("agg") /\ st' = FnMinMax(S, TRUE)
+Agg1(F(_), R)     == IF IsErr(R) THEN R ELSE F(R.s)
+SumOf(T)          == FnSum(T, <<IntV(0)>>)
+MinOf(T)          == FnMinMax(T, FALSE)
+MaxOf(T)          == FnMinMax(T, TRUE)
+Sum               == On("agg") /\ st' = Agg1(SumOf, AggPrep(S))
+SumZero(z)        == On("agg") /\ st' = (LET R == AggPrep(S) IN IF IsErr(R) THEN R ELSE FnSum(R.s, Tok(z, N)))
+Avg               == On("agg") /\ st' = Agg1(FnAvg, AggPrep(S))
+Min               == On("agg") /\ st' = Agg1(MinOf, AggPrep(S))
+Max               == On("agg") /\ st' = Agg1(MaxOf, AggPrep(S))
 (* fn:string-join($arg as xs:string*, $sep) in 2.0 / 3.0; xs:anyAtomicType* in 3.1 *)
-StringJoin(sep)      == On("agg") /\ AllStr(S) /\ st' = FnStringJoin(S, sep)
-StringJoinAny(sep)   == On("agg") /\ ~AllStr(S) /\ st' = FnStringJoin(S, sep)      \* 3.1 only
-StringJoinTypeErr    == On("agg") /\ ~AllStr(S) /\ st' = Err("XPTY0004")           \* 2.0 and 3.0
+StringJoin(sep)      == On("agg") /\ NoUnt(S) /\ AllStr(S) /\ st' = FnStringJoin(S, sep)
+StringJoinAny(sep)   == On("agg") /\ NoUnt(S) /\ ~AllStr(S) /\ st' = FnStringJoin(S, sep)      \* 3.1 only
+StringJoinTypeErr    == On("agg") /\ NoUnt(S) /\ ~AllStr(S) /\ st' = Err("XPTY0004")           \* 2.0 and 3.0
 (* ---- group "cat": the comma operator ---- *)
 Comma(side, T)    == On("cat") /\ st' = OK(IF side = "after" THEN S \o T ELSE T \o S)
 
@@ -692,6 +752,13 @@ QuantFocus(q, F, thr)     == On("focus") /\ st' = ExQuantFocus(S, q, F, Tok(thr,
 NodeMap(b)  == On("nodes") /\ (b \in {".", "(., .)"} \/ AllNodes(S)) /\ st' = ExNodeMap(S, b)
 NodeFor(b)  == On("nodes") /\ AllNodes(S) /\ st' = ExNodeMap(S, b)        \* for $x in S return $x/BODY
 NodePath(b) == On("nodes") /\ AllNodes(S) /\ st' = ExNodePath(S, b)
+
+(* ---- a range as the direct operand (only from the empty sequence: the action ignores S) ---- *)
+RangeFn(F, a, b) == On("range") /\ N = 0 /\ st' = ExRangeFn(F, ExRange(Tok(a, N), Tok(b, N)))
+(* ---- group "coll": form "default" = no collation argument, the parser's default collation is coll;
+        "arg" = the collation URI as argument (default: codepoint); "fn" = default-collation() as argument ---- *)
+IndexOfC(v, coll, form) == On("coll") /\ st' = FnIndexOfC(S, Tok(v, N), coll)
+DistinctC(coll, form)   == On("coll") /\ st' = FnDistinctC(S, coll)
 
 Next ==
   \/ \E a \in PredToks : PredNum(a)
@@ -726,6 +793,9 @@ Next ==
   \/ \E sep \in Seps : StringJoinAny(sep)
   \/ StringJoinTypeErr
   \/ \E side \in {"after", "before"}, T \in CatSeqs : Comma(side, T)
+  \/ \E F \in RangeFns, a \in RangeBounds, b \in RangeBounds : RangeFn(F, a, b)
+  \/ \E v \in {"'a'", "'A'", "1"}, coll \in {"cp", "ci"}, form \in {"default", "arg", "fn"} : IndexOfC(v, coll, form)
+  \/ \E coll \in {"cp", "ci"}, form \in {"default", "arg", "fn"} : DistinctC(coll, form)
   \/ \E b \in NodeBodies : NodeMap(b)
   \/ \E b \in {".", "..", "@k", "../n"} : NodeFor(b)
   \/ \E b \in {".", "..", "@k", "../n"} : NodePath(b)
@@ -797,6 +867,14 @@ LawCardinality ==
   /\ FnCount(S).s[1].q[1] = N
   /\ FnEmpty(S).s[1].q[1] = 1 - FnExists(S).s[1].q[1]
   /\ (FnEmpty(S).s[1].q[1] = 1) = (N = 0)
+  /\ FnSum(ExFor(S, "1").s, <<IntV(0)>>).s[1].q[1] = N                  \* count(S) = sum(for $x in S return 1)
+  /\ \A a \in {-3, -1, 1, 3, 10}, b \in {-3, -1, 1, 3, 10} :              \* count(a to b) is never negative
+        FnCount(Ints(a, b)).s[1].q[1] = (IF b >= a THEN b - a + 1 ELSE 0)
+  /\ \A v \in {<<Sa>>, <<Str(<<65>>)>>} :                                 \* codepoint collation = plain index-of; ci finds more
+        /\ FnIndexOfC(S, v, "cp") = FnIndexOf(S, v)
+        /\ Len(FnIndexOfC(S, v, "ci").s) >= Len(FnIndexOfC(S, v, "cp").s)
+        /\ FnIndexOfC(S, <<Sa>>, "ci") = FnIndexOfC(S, <<Str(<<65>>)>>, "ci")
+  /\ FnDistinctC(S, "cp") = FnDistinct(S) /\ Len(FnDistinctC(S, "ci").s) <= Len(FnDistinct(S).s)
 LawSum ==                                   \* sum = fold of +  = closed form; avg * count = sum on exact types
   (N > 0 /\ AllNum(S)) =>
      LET sm == FnSum(S, <<IntV(0)>>).s[1]
